@@ -310,9 +310,9 @@ def build_wc(named: tuple) -> Tuple[type, set]:
 
 
 def observe_b(klass: type, whiles: set, known: List[Any], chooser: Optional[Chooser], restore_at: tuple,
-              medium: str) -> Tuple[Any, List[str], int, int]:
+              medium: str, exit_restore_at: tuple = (), spare_saves: bool = False) -> Tuple[Any, List[str], int, int]:
     global ENV
-    world = ckpt.CkptWorld(restore_at, [], medium)
+    world = ckpt.CkptWorld(restore_at, [], medium, exit_restore_at=exit_restore_at, spare_saves=spare_saves)
     prev, ENV = ENV, Decisions(known, chooser, whiles)
     try:
         proc = world.run(klass)
@@ -378,6 +378,28 @@ def check_b(unit: tuple, max_m: int, media: Tuple[str, ...]) -> Dict[str, Any]:
                         out['violations'].append({'clause': f'differs:{what}', 'features': {
                             'part': 'B', 'n_restores': len(subset), 'kinds': c09.kinds_in(named)},
                             'detail': {'outline': c09.shape(named), 'got': got, 'reference': ref}, 'case': case})
+        # the checkpoint is taken when the k-th step has returned and its state is about to be left (the other side of the
+        # step boundary), and a checkpoint was also written - and never used - every time a state had been entered; the
+        # step that ends the chain is left out (what re-running a finished outline does is not laid down)
+        for k in range(1, nb):
+            out['n'] += 1
+            case = {'part': 'B', 'outline': unit, 'decisions': known, 'exit_restore_at': (k,), 'medium': media[0]}
+            try:
+                got, errors, _, restores = observe_b(klass, whiles, list(known), None, (), media[0], exit_restore_at=(k,),
+                                                     spare_saves=True)
+                out['restores'] += restores
+            except Exception as exc:  # noqa: BLE001
+                out['violations'].append({'clause': 'restore-raised', 'features': {'exc': type(exc).__name__, 'part': 'B', 'at': 'exit'},
+                                          'detail': repr(exc), 'case': case})
+                continue
+            if errors:
+                out['violations'].append({'clause': 'stuck-after-restore', 'features': {'part': 'B', 'at': 'exit'},
+                                          'detail': errors, 'case': case})
+            elif got != ref:
+                what = ['outcome', 'executed-steps', 'cursor'][next(i for i in range(3) if got[i] != ref[i])]
+                out['violations'].append({'clause': f'differs:{what}', 'features': {
+                    'part': 'B', 'at': 'exit', 'kinds': c09.kinds_in(named)},
+                    'detail': {'outline': c09.shape(named), 'got': got, 'reference': ref}, 'case': case})
     return out
 
 
@@ -426,7 +448,9 @@ def run_check(tier: str, seed: int, workers: Any) -> Dict[str, Any]:
                 'finished/unsuccessful/killed/excepted endings) x every subset of <= M state-entry boundaries; part B: '
                 f'{sum(1 for j in jobs if j[0] == "B")} WorkChain outlines x every decision sequence x every subset of boundaries; at each chosen '
                 'boundary: Bundle -> medium -> abandon the instance (exception out of the ENTERED callback) -> unbundle on a '
-                'fresh loop -> continue; compared with the uninterrupted run; non-trivial = at least one restore',
+                'fresh loop -> continue; compared with the uninterrupted run; for the outlines also: the checkpoint taken when the k-th step '
+                'has returned and its state is being left (every k but the last), with a checkpoint written and discarded at every '
+                'state entry before; non-trivial = at least one restore',
         'samples': [{'part': 'A', 'program': programs.describe(jobs[0][1]) if jobs[0][0] == 'A' else repr(jobs[0][1]),
                      'M': max_m, 'media': list(media)}],
         'exhaustive': True,
@@ -445,5 +469,5 @@ def replay(doc: Dict[str, Any]) -> List[dict]:
     if case['part'] == 'A':
         res = check_a(to_tuple(case['program']), len(case['restore_at']) or 1, (case['medium'],))
     else:
-        res = check_b(to_tuple(case['outline']), len(case['restore_at']) or 1, (case['medium'],))
+        res = check_b(to_tuple(case['outline']), len(case.get('restore_at') or ()) or 1, (case['medium'],))
     return res['violations']
